@@ -295,12 +295,13 @@ impl Oplog {
     ) -> Result<Box<[StoreInfo]>, HypercoreError> {
         let (new_header_bits, infos_to_flush) = if clear_traces {
             // When clearing traces, both slots need to be cleared, hence
-            // do this twice, but for the first time, ignore the truncate
-            // store info, to end up with three StoreInfos.
+            // do this twice. The entries are truncated already after the first
+            // header: writing the second header flips the current header bit
+            // back to the one the entries carry, so if they were still there
+            // after a crash, they would be replayed on top of the new header.
             let (new_header_bits, infos_to_flush) =
                 Self::insert_header(header, 0, self.header_bits, clear_traces)?;
-            let mut combined_infos_to_flush: Vec<StoreInfo> =
-                infos_to_flush.into_vec().drain(0..1).collect();
+            let mut combined_infos_to_flush: Vec<StoreInfo> = infos_to_flush.into_vec();
             let (new_header_bits, infos_to_flush) =
                 Self::insert_header(header, 0, new_header_bits, clear_traces)?;
             combined_infos_to_flush.extend(infos_to_flush.into_vec());
